@@ -1024,13 +1024,13 @@ class PolarsModel(data_algebra.data_model.DataModel):
         inputs = [self._compose_polars_ops(s, data_map=data_map) for s in op.sources]
         assert len(inputs) == 2
         how = op.jointype.lower()
-        if how == "full":
-            how = "outer"
         if how != "right":
             coalesce_columns = set(op.sources[0].columns_produced()).intersection(
                 op.sources[1].columns_produced()
-            ) - set(op.on_a)
+            ) - set([a for (a, b) in zip(op.on_a, op.on_b) if a == b])
             orphan_keys = [c for c in op.on_b if c not in set(op.on_a)]
+            if how == "full":
+                orphan_keys = []  # a full join keeps both sides' key columns itself
             input_right = inputs[1]
             if len(orphan_keys) > 0:
                 input_right = input_right.with_columns(
@@ -1043,6 +1043,18 @@ class PolarsModel(data_algebra.data_model.DataModel):
                 how=how,
                 suffix="_da_right_tmp",
             )
+            if how == "full":
+                # rows found only on the right carry their key values in the right side's key columns
+                same_named_keys = [a for (a, b) in zip(op.on_a, op.on_b) if a == b]
+                if len(same_named_keys) > 0:
+                    res = res.with_columns(
+                        [
+                            pl.coalesce(
+                                [pl.col(c), pl.col(c + "_da_right_tmp")]
+                            ).alias(c)
+                            for c in same_named_keys
+                        ]
+                    )
             if len(coalesce_columns) > 0:
                 res = res.with_columns(
                     [
@@ -1059,7 +1071,7 @@ class PolarsModel(data_algebra.data_model.DataModel):
             # simulate right join with left join
             coalesce_columns = set(op.sources[0].columns_produced()).intersection(
                 op.sources[1].columns_produced()
-            ) - set(op.on_b)
+            ) - set([a for (a, b) in zip(op.on_a, op.on_b) if a == b])
             orphan_keys = [c for c in op.on_a if c not in set(op.on_b)]
             input_right = inputs[0]
             if len(orphan_keys) > 0:
